@@ -39,7 +39,7 @@ def strata(tier):
         ns = {1: [7, 12], 2: [5, 8], 3: [4, 5]}
     else:
         ns = {1: [3, 4, 9, 16, 31, 40], 2: [3, 4, 7, 12, 15], 3: [3, 4, 5, 8, 9]}
-    return [dict(id="D%d-N%d" % (D, N), D=D, N=N) for D in (1, 2, 3) for N in ns[D]]
+    return [dict(id="D%d-N%d" % (D, N), D=D, N=N) for D in (1, 2, 3) for N in ns[D]] + [dict(id="D%d-anyN" % D, D=D, N="any", n_max={1: 200, 2: 32, 3: 12}[D]) for D in (1, 2, 3)]
 
 
 def st_state(C, D, N):
